@@ -13,6 +13,7 @@ Not decided: what pd.Timestamp accepts as a day string (e.g. '' parses to NaT,
 times of day), which is library behaviour.
 """
 import ast
+import re
 
 from mmsa import au, cfg as cfgmod, dataflow, pathcond
 from mmsa.core import Undecided, norm, walk_no_nested
@@ -535,6 +536,17 @@ def r_timewindow(repo, rep):
     wx = rd_.expand(weak[0], weak[0].expr)[0] if weak else None
     simple = weak and isinstance(au.strip_not(wx)[0], ast.Compare) and len(au.strip_not(wx)[0].ops) == 1 and not au.aliens(wx, (selfn,))
     if weak and not simple:
+      # (last_day - first_day).days + k < c : a linear test of the day difference d; it must reject exactly d < 0
+      m_ = re.fullmatch(r'\((\w+)\.last_day - \1\.first_day\)\.days(?: ([+-]) (\d+))? (<|<=) (-?\d+)', norm(wx))
+      if m_ and any(g.raise_exit in g.reachable(s_, cfgmod.no_exc) and g.exit not in g.reachable(s_, cfgmod.no_exc) for s_, lab_ in g.succ[weak[0]] if lab_ == 'true'):
+        k_ = int(m_.group(3) or 0) * (-1 if m_.group(2) == '-' else 1)
+        c_ = int(m_.group(5))
+        last_rejected = (c_ - k_ - 1) if m_.group(4) == '<' else (c_ - k_)        # rejects d <= last_rejected
+        rep.check(last_rejected == -1, 'R4/ordering-guard', 'the day-difference test rejects exactly the reversed ranges', f.qualname, norm(weak[0].expr),
+                  'the ordering test `%s` rejects a range only when last_day - first_day <= %d days: %s' % (
+                      norm(wx)[:80], last_rejected, 'a range reversed by %s is accepted' % ('one day' if last_rejected == -2 else 'up to %d days' % (-1 - last_rejected))
+                      if last_rejected < -1 else 'single days or proper ranges are rejected'), f.loc(weak[0].expr))
+        return
       rep.undecided('R4/ordering-guard', 'TimeWindow.__post_init__', 'the test `%s` relates first_day and last_day in a form that is not a single comparison' % norm(wx)[:80], f.loc(weak[0].expr))
       return
     if weak:
